@@ -2,7 +2,7 @@
 
 Nothing in this package executes code of /repo; it only reads the MIR facts dumped by the driver.
 """
-import json, re, os
+import json, os, re, os
 
 PURE_STRIP = re.compile(r"<.*$")
 
@@ -96,6 +96,13 @@ class Body:
 def callee_name(f, fb=None):
     """canonical, impl-index-free name of a call target"""
     n = _callee_name(f)
+    rn = getattr(fb, "renamed", None) if fb is not None else None
+    if rn and "indirect" not in f:
+        # a call of a function that was recognised as a renamed known function names the known function
+        for key in (f.get("resolved"), f.get("def")):
+            if key in rn:
+                n = rn[key]
+                break
     rw = getattr(fb, "rewrite", None) if fb is not None else None
     return rw(n) if rw else n
 
@@ -186,6 +193,57 @@ def strip_debug_assertions(raw):
     return n
 
 
+def canonical_field_names(bodies):
+    """A private field that was renamed keeps the name the rules know it by.  The current names of a struct's fields
+    are read off its constructor expressions (aggregates list them in declaration order); where the name at a
+    position differs from the name known for that position (rules/known_fields.json) and the new name is not the
+    known name of any field, every field projection and aggregate that uses the new name is rewritten to the known
+    one.  Returns {new name: known name}."""
+    try:
+        known = json.load(open(os.path.join(os.path.dirname(os.path.abspath(__file__)), "known_fields.json"), encoding="utf-8"))
+    except (OSError, ValueError):
+        return {}
+    taken = {n for v in known.values() for n in v}
+    current = {}
+
+    def collect(x):
+        if isinstance(x, dict):
+            if x.get("agg") == "adt" and "fields_n" in x:
+                current.setdefault("%s::%s" % (x.get("adt"), x.get("variant", "")), x["fields_n"])
+            for v in x.values():
+                collect(v)
+        elif isinstance(x, list):
+            for v in x:
+                collect(v)
+
+    collect(bodies)
+    ren = {}
+    for adt, names in current.items():
+        kn = known.get(adt)
+        if not kn or len(kn) != len(names):
+            continue
+        for new, old in zip(names, kn):
+            if new != old and new not in taken and ren.get(new, old) == old:
+                ren[new] = old
+    if not ren:
+        return {}
+
+    def rewrite(x):
+        if isinstance(x, dict):
+            if "n" in x and "f" in x and x["n"] in ren:
+                x["n"] = ren[x["n"]]
+            if "fields_n" in x:
+                x["fields_n"] = [ren.get(n, n) for n in x["fields_n"]]
+            for v in x.values():
+                rewrite(v)
+        elif isinstance(x, list):
+            for v in x:
+                rewrite(v)
+
+    rewrite(bodies)
+    return ren
+
+
 def fold_constant_switches(raw):
     """`if false { .. }`, `if true { .. } else { .. }`, `while false`: a branch on a literal is not a branch.  The switch
     is replaced by a jump to the side it always takes and what becomes unreachable is emptied, so that a rule
@@ -258,6 +316,8 @@ class FactBase:
                 d = json.load(fh)
             self.crates[fn] = d["crate"]
             self.impls.extend(d.get("impls", []))
+            self.renamed_fields = getattr(self, "renamed_fields", {})
+            self.renamed_fields.update(canonical_field_names(d["bodies"]))
             for raw in d["bodies"]:
                 strip_debug_assertions(raw)
                 fold_constant_switches(raw)
@@ -279,6 +339,29 @@ class FactBase:
             for b in self.by_path.values():
                 b.name = self._canon(b)
             cand = {b.path for b in self.by_path.values() if b.kind in ("fn", "assoc_fn") and b.name not in known and not b.raw.get("impl_trait") and not b.raw.get("in_trait")}
+            # a function of the known tree that is gone while exactly one new function with the same signature stands
+            # in the same module / impl is that function under a new name: it keeps its old identity for the rules
+            self.renamed = {}
+            try:
+                import json as _json
+                sigs = _json.load(open(os.path.join(os.path.dirname(os.path.abspath(__file__)), "known_signatures.json"), encoding="utf-8"))
+            except (OSError, ValueError):
+                sigs = {}
+            present = {b.name for b in self.by_path.values()}
+            crates = {b.name.split("::", 1)[0] for b in self.by_path.values() if b.kind in ("fn", "assoc_fn") and not b.name.startswith("<")}
+            for m in sorted(known - present):
+                if m.startswith("<") or m not in sigs or m.split("::", 1)[0] not in crates:
+                    continue
+                box = m.rsplit("::", 1)[0]
+                cs = []
+                for pth in cand:
+                    b_ = self.by_path[pth]
+                    sg = b_.raw.get("sig")
+                    if b_.name.rsplit("::", 1)[0] == box and sg and "(%s) -> %s" % (", ".join(sg["inputs"]), sg["output"]) == sigs[m]:
+                        cs.append(pth)
+                if len(cs) == 1:
+                    self.renamed[cs[0]] = m
+                    cand.discard(cs[0])
             # a helper must not be (mutually) recursive: splicing it in would never end
             def callees_of(pth):
                 out = set()
@@ -320,6 +403,8 @@ class FactBase:
             self.bodies[b.name] = b
 
     def _canon(self, b):
+        if b.path in getattr(self, "renamed", {}):
+            return self.renamed[b.path]
         raw = b.raw
         last = b.path.rsplit("::", 1)[-1]
         if b.kind == "closure":
